@@ -85,13 +85,17 @@ def _round(q, bits=10):
     return Fraction(round(q * 2 ** bits), 2 ** bits)
 
 
-def _component(rng: Rng, N, m, rough, amp=Fraction(1), wide=False):
+def _component(rng: Rng, N, m, rough, amp=Fraction(1), wide=False, grid=None):
     lo = rng.choice([0, 0, -1, 10, Fraction(-7, 2)])
     scale = rng.choice([1, 1, 2, 5, Fraction(1, 2)])
     if wide:  # scale sweep: domains of length 2^-10 … 2^10, offsets up to 1024 (all exact dyadic)
         lo = rng.choice([0, 1024, -512, Fraction(1, 1024)])
         scale = rng.choice([Fraction(1, 1024), Fraction(1, 32), 64, 1024])
-    t = rng.grid(m, lo=lo, scale=scale)
+    if grid is not None:  # forced NON-uniform grid (lo, length), e.g. wavelengths in metres: steps ~1e-10 … 1e-8
+        lo, scale = grid
+        t = rng.grid(m, lo=lo, scale=scale, uniform=False)
+    else:
+        t = rng.grid(m, lo=lo, scale=scale)
     span = t[-1] - t[0]
     u = [(x - t[0]) / span for x in t]  # in [0, 1]
     k = rng.randint(3, 6)
@@ -181,6 +185,25 @@ def _case(rng: Rng, big=False, ufpca_only=False):
     return dict(kind="fit", comps=comps, exps=exps, n_components=nc, normalize=rng.random() < 0.3, rough=rough, sweep=sweep, share=share)
 
 
+NANO = (Fraction(1, 2 ** 21), Fraction(1, 2 ** 27))  # 4.8e-7 m, length 7.5e-9 m: every step below 1e-8 (exact dyadic)
+
+
+def _nano_cases(rng: Rng):
+    """Grid scale × non-uniformity, structured, every run: non-uniform grids in small units — alone, for all components, and
+    mixed with an ordinary-scale component; both expansions."""
+    layouts = [[(True, "PSplines")], [(True, "UFPCA")], [(True, "PSplines"), (True, "UFPCA")], [(True, "PSplines"), (False, "UFPCA")],
+               [(False, "PSplines"), (True, "PSplines"), (True, "UFPCA")]]
+    for lay in layouts:
+        N = 16
+        comps, exps = [], []
+        for nano, meth in lay:
+            m = rng.randint(10, 14)
+            comps.append(_component(rng, N, m, rough=False, grid=NANO if nano else (Fraction(rng.choice([0, -1])), Fraction(rng.choice([1, 2])))))
+            exps.append(dict(method="UFPCA", n_components=3) if meth == "UFPCA" else dict(method="PSplines", n_segments=3, degree=2))
+        yield dict(kind="fit", comps=comps, exps=exps, n_components=min(3, sum(_size(e) for e in exps)), normalize=False, rough=False,
+                   sweep=False, share=False, nano=True)
+
+
 def _bd_case(rng: Rng):
     nb = rng.randint(1, 4)
     shapes = [(rng.randint(1, 4), rng.randint(1, 4)) for _ in range(nb)]
@@ -194,6 +217,7 @@ def gen_cases(rng: Rng, tier):
     n = dict(quick=48, thorough=900)[tier]
     for k in range(n):
         yield _case(rng, big=(tier == "thorough" and k % 4 == 0), ufpca_only=(k % 3 == 0))
+    yield from _nano_cases(rng)
     for _ in range(dict(quick=30, thorough=300)[tier]):
         yield _bd_case(rng)
     for _ in range(dict(quick=4, thorough=40)[tier]):
@@ -346,6 +370,21 @@ def _fit(case, order, est=None, typed=False):
     out["sizes"] = [int(b.coefficients.shape[1]) for b in basis]
     out["phi"] = [np.asarray(b.basis.values).tolist() for b in basis]
     out["B"] = [np.asarray(b.basis._inner_product_matrix).tolist() if getattr(b.basis, "_inner_product_matrix", None) is not None else None for b in basis]
+    # cause test of the finding C04-gram-absolute-threshold: Basis.inner_product zeroes entries below 1e-12 ABSOLUTELY; the
+    # flag is set only if the stored matrix is exactly the true Gram matrix (np.trapz) with its entries below 1e-12 zeroed
+    # and at least one of them is not negligible relative to the largest entry
+    thr = False
+    for q, b in enumerate(basis):
+        if out["B"][q] is None:
+            continue
+        tq = np.asarray(b.basis.argvals["input_dim_0"], dtype=float)
+        ph = np.asarray(b.basis.values, dtype=float)
+        Gt = np.array([[np.trapz(ph[a] * ph[c], tq) for c in range(len(ph))] for a in range(len(ph))])
+        small = (np.abs(Gt) < 1e-12) & (np.abs(Gt) > 1e-9 * np.abs(Gt).max())
+        Gz = np.where(np.abs(Gt) < 1e-12, 0.0, Gt)
+        if small.any() and np.abs(np.asarray(out["B"][q]) - Gz).max() <= 1e-8 * max(np.abs(Gt).max(), 1e-300):
+            thr = True
+    out["gram_thresholded"] = bool(thr)
     out["eigenvalues"] = np.asarray(est.eigenvalues).tolist()
     out["coef"] = [np.asarray(e.coefficients).tolist() for e in est.eigenfunctions.data]  # K × s_p each
     with np.errstate(all="ignore"):
@@ -440,6 +479,10 @@ def run_impl(case):
             out["refit_other_diff"] = [k for k in ("eigenvalues", "coef", "psi", "pace", "rec", "mean", "xi") if "error" in o3 or not _same(fits[0][k], o3[k])]
             keys = ("eigenvalues", "coef", "psi", "pace", "rec", "mean", "xi")
             out["refit_other"] = bool("error" not in o3 and all(_same(fits[0][k], o3[k]) for k in keys))
+    # refit of ONE estimator on data of ANOTHER shape (fewer / more components, other grids, other n_obs), then the case;
+    # constructor `weights` of the wrong length (the unchanged tree ignores them: results as without)
+    if "error" not in fits[0]:
+        out.update(_reshape_history(case, P, fits[0]))
     # option values of equivalent types (np.bool_ / 0-1 int for booleans, np.float64 for fractions): same results
     if "error" not in fits[0]:
         ot, _ = _fit(case, tuple(range(P)), typed=True)
@@ -454,6 +497,66 @@ def run_impl(case):
         out["bad_method"] = "accepted"
     except Exception as e:  # noqa: BLE001
         out["bad_method"] = type(e).__name__
+    return out
+
+
+def _reshape_history(case, P, f0):
+    from FDApy.preprocessing.dim_reduction.mfpca import MFPCA
+
+    out = {}
+    keys = ("eigenvalues", "coef", "psi", "pace", "rec", "mean", "xi")
+
+    def shrink(c):  # other grid (last point dropped), other n_obs (last curve dropped), other values
+        return dict(t=c["t"][:-1], X=[[rs(F(x) + Fraction(j, 16)) for j, x in enumerate(r[:-1])] for r in c["X"][:-1]])
+
+    variants = []
+    if P >= 2:
+        variants.append(("fewer", list(range(P - 1))))            # fitted on P-1 components first, then on P
+    variants.append(("more", list(range(P)) + [0]))               # fitted on P+1 components first, then on P
+    diffs = {}
+    for name, idxs in variants:
+        other = dict(case)
+        other["comps"] = [shrink(case["comps"][p]) for p in idxs]
+        other["exps"] = [dict(case["exps"][p]) for p in idxs]
+        oB, estB = _fit(other, tuple(range(len(idxs))))
+        if "error" in oB:
+            continue
+        with warnings.catch_warnings():
+            warnings.simplefilter("ignore")
+            with np.errstate(all="ignore"):
+                try:
+                    estB.inverse_transform(np.asarray(estB.transform(method="PACE")))
+                except Exception:  # noqa: BLE001
+                    pass
+        estB.univariate_expansions = [dict(e) for e in case["exps"]]
+        try:
+            o3, _ = _fit(case, tuple(range(P)), est=estB)
+        except Exception as e:  # noqa: BLE001
+            diffs[name] = ["raised " + type(e).__name__ + ": " + str(e)[:80]]
+            continue
+        d = [k for k in keys if "error" in o3 or not _same(f0[k], o3[k])]
+        if "error" not in o3 and len(o3["rec"]) != P:
+            d.append(f"inverse_transform returns {len(o3['rec'])} components for {P}")
+        if d:
+            diffs[name] = d
+    out["reshape_diff"] = diffs
+    # constructor weights of the wrong length
+    wd = {}
+    for name, w in (("longer", np.full(P + 1, 2.0)), ("shorter", np.full(max(P - 1, 0), 2.0))):
+        data = _mfd(case["comps"], range(P))
+        est = MFPCA(n_components=case["n_components"], univariate_expansions=[dict(e) for e in case["exps"]], method="covariance",
+                    normalize=case["normalize"], weights=w)
+        try:
+            o4, _ = _fit(case, tuple(range(P)), est=est)
+        except Exception as e:  # noqa: BLE001
+            wd[name] = ["raised " + type(e).__name__ + ": " + str(e)[:80]]
+            continue
+        d = [k for k in keys if "error" in o4 or not _same(f0[k], o4[k])]
+        if "error" not in o4 and len(o4["rec"]) != P:
+            d.append(f"inverse_transform returns {len(o4['rec'])} components for {P}")
+        if d:
+            wd[name] = d
+    out["weights_len_diff"] = wd
     return out
 
 
@@ -943,6 +1046,8 @@ def _causes(f):
             causes.append("near_degenerate_eigenvalues")
     if N - 1 < xi.shape[1]:
         causes.append("fewer_observations_than_coefficients")
+    if f.get("gram_thresholded"):
+        causes.append("basis_gram_absolute_threshold")
     return causes
 
 
@@ -1030,6 +1135,10 @@ def oracle(case, impl):
         bad("inputs_unchanged", "fit changed the user's univariate_expansions dictionaries", causes=["expansions_popped"])
     if not impl.get("refit_same", True):
         bad("refit_same", f"second fit on the same estimator differs from the first (univariate sizes now {impl.get('refit_sizes')}, before {f0['sizes']})", causes=["expansions_popped"] if not f0["exps_unchanged"] else [])
+    for name, d in (impl.get("reshape_diff") or {}).items():
+        bad("refit_same", f"an estimator fitted before on {name} components / other grids / other n_obs and re-fitted on this data differs from a fresh fit in {d}", causes=["stale_state_other_shape"])
+    for name, d in (impl.get("weights_len_diff") or {}).items():
+        bad("constructor_weights", f"constructor weights of the wrong length ({name}) are not ignored as on the unchanged tree: {d}", causes=["weights_wrong_length"])
     if impl.get("typed_diff"):
         bad("option_types", f"normalize given as np.bool_ / 0-1 int (n_components as np.float64) changes {impl['typed_diff']} w.r.t. the plain Python values", causes=["option_value_type"])
     if impl.get("ro_changed"):
@@ -1190,7 +1299,7 @@ def classify(case, impl):
         return tags + ["blocks:" + str(len(case["shapes"])), "square" if all(a == b for a, b in case["shapes"]) else "rectangular"]
     if case["kind"] == "irregular":
         return tags + (["error"] if "error" in impl else [])
-    tags += [f"P:{len(case['comps'])}", f"normalize:{case['normalize']}", "shared_grid_equal_sizes" if case.get("share") else "own_grids", "scale_sweep" if case.get("sweep") else "unit_scale", "rough_mean" if case["rough"] else "smooth_mean",
+    tags += [f"P:{len(case['comps'])}", f"normalize:{case['normalize']}", "shared_grid_equal_sizes" if case.get("share") else "own_grids", "nano_nonuniform_grid" if case.get("nano") else "ordinary_grid", "scale_sweep" if case.get("sweep") else "unit_scale", "rough_mean" if case["rough"] else "smooth_mean",
              "n_components:" + ("fraction" if isinstance(case["n_components"], float) else "int")]
     tags += sorted({"exp:" + e["method"] for e in case["exps"]})
     if len({len(c["t"]) for c in case["comps"]}) > 1:
